@@ -158,7 +158,26 @@ def iterators(ctx, rule):
     ref = um.func("urls_from_html")
     src = unparse(ref.node)
     ok = "isinstance(string, bytes)" in src and bname[0].lstrip("_") in src and "encoding=encoding" in src and "errors=errors" in src
-    ctx.ob(rule, "dispatch-on-bytes", ok, "urls_from_html does not dispatch bytes documents to the bytes iterator with the caller's encoding/errors", um.site(ref.node))
+
+    def dispatch_cells():
+        # a bytes document that is not valid UTF-8, interpreted with each (encoding, errors) the caller can pass; and its str twin
+        from ..microeval import run_function, as_list, Raised
+        out = []
+        raw = b'<a href="/caf\xe9">t</a><a href=\'/b\'>u</a>'
+        for kw, want in (({"encoding": "latin-1"}, ["/caf\u00e9", "/b"]), ({"errors": "replace"}, ["/caf\ufffd", "/b"]), ({"errors": "ignore"}, ["/caf", "/b"]),
+                         ({"encoding": "cp1252", "errors": "strict"}, ["/caf\u00e9", "/b"]), ({}, "raises UnicodeDecodeError")):
+            try:
+                got = as_list(repo, run_function(repo, ref, [raw], dict(kw)))
+            except Raised as e:
+                got = "raises " + e.name
+            out.append(("urls_from_html(%r, %s) -> %r, expected %r" % (raw, ", ".join("%s=%r" % i for i in sorted(kw.items())), got, want), got == want))
+        try:
+            got = as_list(repo, run_function(repo, ref, [raw.decode("latin-1")], {"encoding": "ascii"}))
+        except Raised as e:
+            got = "raises " + e.name
+        out.append(("urls_from_html(<str document>, encoding='ascii') -> %r" % (got,), got == ["/caf\u00e9", "/b"]))
+        return out
+    ctx.ob(rule, "dispatch-on-bytes", ok, "urls_from_html does not dispatch bytes documents to the bytes iterator with the caller's encoding/errors", um.site(ref.node), cells=dispatch_cells)
 
 
 def unescape(ctx, rule):
